@@ -27,6 +27,7 @@ import EaselModel.Msafile.PsiblastReadDomain
 import EaselModel.Msafile.PhylipReadDomain
 import EaselModel.Msafile.StoTokens
 import EaselModel.Msafile.StoFirstMention
+import EaselModel.Msafile.GuessPhylip
 /-! # C03 — writing an alignment and reading it back preserves it: property theorems
 
 Full statement (properties.jsonl): for every well-formed alignment, writing it in any of the ten formats and reading the
@@ -2610,9 +2611,9 @@ reader numbers the sequences / unparsed `#=GR` tags of `write m`; `stoMention m`
 
 FULL statement (`StoMentionRoundTrip`): for every writable alignment, WITHOUT `gsOrderOk` / `grOrderOk`,
     `read (write m) = ok (stoProject (stoMention m))`.
-Proved: the two orders are permutations for EVERY alignment; the sequence order is the identity under `gsOrderOk`, so the proved round
-trip is the full statement's special case "permutation = identity" (`stockholm_roundtrip_mention_partial`); the full statement at the
-witnesses of the finding (`decide`).  Not proved: the full statement in general (see `Msafile/StoFirstMention.lean`); the monitor
+Proved: the two orders are permutations for EVERY alignment; they are the identity under `gsOrderOk` / `grOrderOk`, and then `stoMention m`
+projects to `m`: the full statement holds wherever the proved round trip does (`stockholm_roundtrip_mention_partial`); the full statement
+at the witnesses of the finding (`decide`).  Not proved: the full statement in general (see `Msafile/StoFirstMention.lean`); the monitor
 demands it of the real library on every generated case, inside the region of the finding too. -/
 
 theorem stockholm_seq_order_perm (m : Msa) : (stoSeqOrder m).Perm (List.range m.nseq) := stoSeqOrder_perm m
@@ -2621,13 +2622,19 @@ theorem stockholm_gr_order_perm (m : Msa) : (stoGrOrder m).Perm (List.range m.gr
 
 theorem stockholm_seq_order_id (m : Msa) (h : gsOrderOk m) : stoSeqOrder m = List.range m.nseq := stoSeqOrder_id_of_gsOrderOk m h
 
-/-- PARTIAL (full statement: `StoMentionRoundTrip pfam abc cfg m` for every `m` that satisfies `StoWritable` without its two order
-    clauses): under the order hypotheses the reader's sequence order is the alignment's, and the alignment comes back as it is -/
+theorem stockholm_gr_order_id (m : Msa) (h : grOrderOk m) : stoGrOrder m = List.range m.gr.length := stoGrOrder_id_of_grOrderOk m h
+
+/-- PARTIAL: the full statement `StoMentionRoundTrip pfam abc cfg m` - read (write m) = ok (stoProject (stoMention m)) - is proved
+    here under `StoWritable`, i.e. WITH its two order clauses `gsOrderOk` / `grOrderOk`, where both orders are the identity and
+    `stoMention m` projects to `m` itself.  Missing: the same for every `m` that satisfies `StoWritable` without those two clauses. -/
 theorem stockholm_roundtrip_mention_partial (pfam : Bool) (abc : Option Abc) (cfg : Cfg) (enc : UInt8 → UInt8) (txt : Nat → Bytes) (m : Msa)
     (h : StoWritable abc cfg enc txt m) :
-    stockholmRead cfg (splitLines (stockholmWrite pfam abc m)) = (.ok (stoProject cfg m), []) ∧ stoSeqOrder m = List.range m.nseq :=
-  ⟨stoRead_write pfam abc cfg enc txt m h, stoSeqOrder_id_of_gsOrderOk m h.ann.gs_order⟩
+    StoMentionRoundTrip pfam abc cfg m ∧ stoSeqOrder m = List.range m.nseq ∧ stoGrOrder m = List.range m.gr.length ∧
+      stoProject cfg (stoMention m) = stoProject cfg m :=
+  ⟨stoMentionRoundTrip_of_writable pfam abc cfg enc txt m h, stoSeqOrder_id_of_gsOrderOk m h.ann.gs_order,
+    stoGrOrder_id_of_grOrderOk m h.ann.gr_order, stoMention_project abc cfg enc txt m h⟩
 
+example := stockholm_roundtrip_mention_partial false none _ id _ exStoWt (stoTextWritable_writable exStoWt exStoWt_writable)
 example : gsOrderOk exStoWt ∧ stoSeqOrder exStoWt = List.range exStoWt.nseq := ⟨gsOrderOk_of_hasw exStoWt rfl, by decide +kernel⟩
 
 /-- the full statement AT the witnesses of the known finding: sparse `#=GS AC` (sequence order `[1, 0]`) … -/
@@ -2649,5 +2656,42 @@ example : stoSeqOrder exStoMention = [1, 2, 0] ∧ stoGrOrder exStoMention = [1,
 example : (stoMention exStoMention).names = [str "b", str "c", str "a"] ∧
     (stoMention exStoMention).gr = [(str "tB", [some (str "abc"), none, none]), (str "tA", [none, some (str "abc"), none])] := by decide +kernel
 example : StoMentionRoundTrip false none (stockholmCfg none) exStoMention := by unfold StoMentionRoundTrip; decide +kernel
+
+/-! ## ===== AUTODETECTION OF PHYLIP OUTPUT (round 6) =====
+
+For Stockholm/Pfam, Clustal, Clustal-like and aligned FASTA `guess (write m) = fmt` holds for every alignment (section AUTODETECT).
+PHYLIP: the header line ` <nseq> <alen>` is recognised for ALL numbers, so with a PHYLIP suffix the answer is the suffix's format, and
+without one it is EXACTLY the verdict of the deep check `esl_msafile_phylip_CheckFileFormat` on the output: the exception set is
+`{m | phyCheckFileFormat (write m) ≠ ok fmt}` (documented as heuristic: one sequence / one block make the two layouts the same bytes;
+members below).  SELEX / PSI-BLAST output has no header: it is recognised by `msafile_check_selex` over the whole file - executable
+model + monitor only, no theorem. -/
+
+/-- the first line of PHYLIP output looks like a PHYLIP header, whatever `nseq` and `alen` -/
+theorem phylip_header_recognised (n a : Nat) :
+    lineOk (phyHdrLine n a) ∧ isBlankLine (phyHdrLine n a) = false ∧ fmtByFirstLine (phyHdrLine n a) = .phylip := phyHeader_first n a
+
+/-- **autodetection of PHYLIP output** (interleaved or sequential, text or digital, any alignment with ≥ 1 column) -/
+theorem phylip_autodetect (fname : Option Bytes) (sequential : Bool) (abc : Option Abc) (m : Msa) (h : 0 < m.alen) :
+    guessFormat fname (splitLines (phylipWrite sequential abc m)) =
+      if fmtBySuffix fname == some .phylip then .ok (.phylip, 0)
+      else if fmtBySuffix fname == some .phylips then .ok (.phylips, 0)
+      else phyCheckFileFormat (splitLines (phylipWrite sequential abc m)) := guess_phylipWrite fname sequential abc m h
+
+/-- with the suffix `.phy` / `.phys` the format is the suffix's, for every alignment -/
+theorem phylip_autodetect_suffix (sequential : Bool) (abc : Option Abc) (m : Msa) (h : 0 < m.alen) :
+    guessFormat (some (str "x.phy")) (splitLines (phylipWrite sequential abc m)) = .ok (.phylip, 0) ∧
+    guessFormat (some (str "x.phys")) (splitLines (phylipWrite sequential abc m)) = .ok (.phylips, 0) := by
+  constructor
+  · rw [guess_phylipWrite _ sequential abc m h, fmtBySuffix_phy]; rfl
+  · rw [guess_phylipWrite _ sequential abc m h, fmtBySuffix_phys]; rfl
+
+/-- non-vacuity and members of the exception set: two sequences, 61 columns (two blocks): interleaved output is detected … -/
+example : 0 < exPhy.alen ∧ guessFormat none (splitLines (phylipWrite false none exPhy)) = .ok (.phylip, 10) := by decide +kernel
+/-- … the sequential output of the same alignment is "consistent with both" (eslEAMBIGUOUS → eslENOFORMAT, documented) … -/
+example : guessFormat none (splitLines (phylipWrite true none exPhy)) = .fail := by decide +kernel
+/-- … and a single block is the same bytes in both layouts: detected as interleaved -/
+example : guessFormat none (splitLines (phylipWrite true none { exPhy with alen := 5, aseq := exPhy.aseq.map (·.take 5) })) = .ok (.phylip, 10) ∧
+    phylipWrite true none { exPhy with alen := 5, aseq := exPhy.aseq.map (·.take 5) }
+      = phylipWrite false none { exPhy with alen := 5, aseq := exPhy.aseq.map (·.take 5) } := by decide +kernel
 
 end EaselModel.Props.C03
